@@ -266,8 +266,8 @@ impl Prop for C07 {
         }));
         v.push(Scope::new("schedules", "harness x preemption bound x subtree of the default execution", move |f| {
             for &(h, b) in &hs {
-                // the default execution plus up to 96 subtrees below it
-                for child in -1..96 {
+                // the default execution plus up to 256 subtrees below it
+                for child in -1..256 {
                     f(Case::sn("schedule", vec![h, b, child]));
                 }
             }
@@ -613,8 +613,8 @@ impl Prop for C07 {
                     }
                     cx.tally_n(&format!("harness {} points in the default execution", h), root.points.len() as u64);
                     cx.tally_n(&format!("harness {} subtrees", h), kids.len() as u64);
-                    if kids.len() > 96 {
-                        cx.machinery.push(format!("harness {} has {} subtrees, more than the 96 slots", h, kids.len()));
+                    if kids.len() > 256 {
+                        cx.machinery.push(format!("harness {} has {} subtrees, more than the 256 slots", h, kids.len()));
                     }
                     cx.outcome(&("schedule-root", h, root.points.len()));
                     return;
